@@ -236,7 +236,8 @@ for srcDirectory in inputMibs:
                                      'destination directory "%s": %s\r\n' % (os.path.join(srcDirectory, mibFile),
                                                                              dstDirectory, ex))
 
-                dstMibRevision = datetime.fromtimestamp(0)
+                # nothing there yet: older than any source, also one without REVISION
+                dstMibRevision = datetime.min
 
             mibsRevisions[mibName] = dstMibRevision
 
